@@ -57,16 +57,16 @@ func (x *Rec) Run() *Run    { return x.run }
 
 // ScopeStat is the coverage of one enumerated scope.
 type ScopeStat struct {
-	Name       string `json:"name"`
-	Mode       string `json:"mode"`
-	Bound      int    `json:"deviation_bound,omitempty"`
-	Leaves     int64  `json:"executions"`
-	Skipped    int64  `json:"excluded_by_grammar,omitempty"`
-	Complete   bool   `json:"complete"`
-	Outcomes   int    `json:"distinct_outcomes"`
-	Nontrivial int    `json:"distinct_nontrivial"`
+	Name       string  `json:"name"`
+	Mode       string  `json:"mode"`
+	Bound      int     `json:"deviation_bound,omitempty"`
+	Leaves     int64   `json:"executions"`
+	Skipped    int64   `json:"excluded_by_grammar,omitempty"`
+	Complete   bool    `json:"complete"`
+	Outcomes   int     `json:"distinct_outcomes"`
+	Nontrivial int     `json:"distinct_nontrivial"`
 	WallS      float64 `json:"wall_s"`
-	Note       string `json:"note,omitempty"`
+	Note       string  `json:"note,omitempty"`
 }
 
 type violation struct {
@@ -82,17 +82,17 @@ type violation struct {
 
 // Run is the state of one check invocation.
 type Run struct {
-	ID, Tier  string
-	Level     string
-	Seed      int64
-	Root      string // /verif
-	Workers   int
-	Start     time.Time
-	Deadline  time.Time
-	Rule      string
-	Assume    []string
-	Bounds    map[string]any
-	Extra     map[string]any
+	ID, Tier string
+	Level    string
+	Seed     int64
+	Root     string // /verif
+	Workers  int
+	Start    time.Time
+	Deadline time.Time
+	Rule     string
+	Assume   []string
+	Bounds   map[string]any
+	Extra    map[string]any
 
 	replayScope  string
 	replayVector []int
@@ -123,8 +123,8 @@ func NewRun(id, tier, level, root string) *Run {
 	return r
 }
 
-func (r *Run) Quick() bool     { return r.Tier != "thorough" }
-func (r *Run) Replaying() bool { return r.replayScope != "" }
+func (r *Run) Quick() bool         { return r.Tier != "thorough" }
+func (r *Run) Replaying() bool     { return r.replayScope != "" }
 func (r *Run) ReplayScope() string { return r.replayScope }
 func (r *Run) ReplayVector() []int { return r.replayVector }
 
@@ -497,20 +497,20 @@ func (r *Run) Finish() int {
 		}
 	}
 	cov := map[string]any{
-		"evaluations":                   r.evals,
-		"distinct_nontrivial":           len(r.nontriv),
-		"rule":                          r.Rule,
-		"samples":                       r.samples,
-		"distinct_outcomes":             len(r.outcomes),
-		"exhaustive":                    exhaustive,
-		"deadline_hit":                  r.deadlineHit,
-		"scopes":                        r.scopes,
-		"bounds":                        r.Bounds,
-		"known_findings_reproduced":     reproduced,
-		"stale_known_findings":          stale,
-		"violation_classes":             nviol,
-		"counters":                      r.counters,
-		"executions_on_real_code":       r.evals,
+		"evaluations":               r.evals,
+		"distinct_nontrivial":       len(r.nontriv),
+		"rule":                      r.Rule,
+		"samples":                   r.samples,
+		"distinct_outcomes":         len(r.outcomes),
+		"exhaustive":                exhaustive,
+		"deadline_hit":              r.deadlineHit,
+		"scopes":                    r.scopes,
+		"bounds":                    r.Bounds,
+		"known_findings_reproduced": reproduced,
+		"stale_known_findings":      stale,
+		"violation_classes":         nviol,
+		"counters":                  r.counters,
+		"executions_on_real_code":   r.evals,
 	}
 	if r.Level == "model_checking" {
 		st, tr := r.states, r.trans
